@@ -9,7 +9,7 @@ import copy
 import re
 import sys
 import warnings
-from functools import lru_cache
+from functools import lru_cache, wraps
 from importlib.metadata import version
 from numbers import Number as numeric_type
 
@@ -176,17 +176,36 @@ def _iterable(obj):
     return True
 
 
-@lru_cache(maxsize=128, typed=False)
+def _unit_rule_cache(func):
+    """Memoise a unit rule per registry *object*.
+
+    Units hash and compare by value, so two registries with equal contents
+    would otherwise share cache entries and a result could be bound to the
+    registry that happened to fill the cache first. The cached arguments keep
+    their registries alive, so the ids cannot be recycled while an entry exists.
+    """
+    cached = lru_cache(maxsize=128, typed=False)(lambda _registries, *args: func(*args))
+
+    @wraps(func)
+    def wrapper(*args):
+        return cached(tuple(id(getattr(a, "registry", None)) for a in args), *args)
+
+    wrapper.cache_clear = cached.cache_clear
+    wrapper.cache_info = cached.cache_info
+    return wrapper
+
+
+@_unit_rule_cache
 def _sqrt_unit(unit):
     return 1, unit**0.5
 
 
-@lru_cache(maxsize=128, typed=False)
+@_unit_rule_cache
 def _cbrt_unit(unit):
     return 1, unit ** (1.0 / 3.0)
 
 
-@lru_cache(maxsize=128, typed=False)
+@_unit_rule_cache
 def _multiply_units(unit1, unit2):
     try:
         ret = (unit1 * unit2).simplify()
@@ -198,7 +217,7 @@ def _multiply_units(unit1, unit2):
     return ret.as_coeff_unit()
 
 
-@lru_cache(maxsize=128, typed=False)
+@_unit_rule_cache
 def _preserve_units(unit1, unit2=None):
     if unit2 is None or unit1.dimensions is not temperature:
         return 1, unit1
@@ -207,7 +226,7 @@ def _preserve_units(unit1, unit2=None):
     return 1, unit1
 
 
-@lru_cache(maxsize=128, typed=False)
+@_unit_rule_cache
 def _difference_units(unit1, unit2=None):
     if unit1.dimensions is not temperature:
         return _preserve_units(unit1, unit2)
@@ -247,17 +266,17 @@ def _difference_units(unit1, unit2=None):
         )
 
 
-@lru_cache(maxsize=128, typed=False)
+@_unit_rule_cache
 def _power_unit(unit, power):
     return 1, unit**power
 
 
-@lru_cache(maxsize=128, typed=False)
+@_unit_rule_cache
 def _square_unit(unit):
     return 1, unit * unit
 
 
-@lru_cache(maxsize=128, typed=False)
+@_unit_rule_cache
 def _divide_units(unit1, unit2):
     try:
         ret = (unit1 / unit2).simplify()
@@ -266,7 +285,7 @@ def _divide_units(unit1, unit2):
     return ret.as_coeff_unit()
 
 
-@lru_cache(maxsize=128, typed=False)
+@_unit_rule_cache
 def _reciprocal_unit(unit):
     return 1, unit**-1
 
